@@ -44,20 +44,22 @@ def check(ctx):
         same = (g.dom(I, D) and g.pdom(D, I)) or (g.dom(D, I) and g.pdom(I, D))
         ctx.ob("R1", f"{fi.qual}::appends-paired", same, f"{fi.qual}: identifier and descriptor are not appended on exactly the same paths (lists go out of step)", loc(fi, D.ast))
         ctx.ob("R1", f"{fi.qual}::appends-the-reply-identifier", ast.unparse(ic.args[0]) == f"{h}.spa_identifier", f"{fi.qual}: seen-list gets `{ast.unparse(ic.args[0])}`", loc(fi, I.ast))
-        # R2 filter
+        # R2 filter: a test whose TRUE outcome means "an identifier was requested and the decoded reply
+        # identifier differs from it" must dominate the appends, and its true edge must not reach them
+        from ..cfg import atoms as _atoms
+        filt = []
+        for t in g.stmt_nodes():
+            if t.kind != "test":
+                continue
+            at = set(_atoms(t.ast, True)) | g.guard_atoms(t)
+            uneq = [x for x, pol in _atoms(t.ast, True) if (not pol) and " == " in x and "self._spa_identifier" in x and f"{h}.spa_identifier.decode(" in x]
+            if uneq and ("self._spa_identifier is None", False) in at:
+                filt.append(t)
         for nm, N in (("identifier", I), ("descriptor", D)):
-            facts = g.guard_atoms(N)
-            # either no identifier requested, or equal: the append is NOT reachable under (requested and unequal)
-            tests = [n for n in g.stmt_nodes() if n.kind == "test" and "!=" in n.text() and "self._spa_identifier" in n.text()]
-            ok = bool(tests)
-            for t in tests:
-                # the True edge (unequal) must not reach the append
+            ok = bool(filt)
+            for t in filt:
                 tsucc = [m for m, l in g.succ[t] if l == "T"]
                 ok = ok and all(N not in (g.reach_from(m, labels_skip=("exc",)) | {m}) for m in tsucc)
-                cmp_txt = t.text()
-                ok = ok and f"{h}.spa_identifier.decode(" in cmp_txt
-                tf = g.guard_atoms(t)
-                ok = ok and ("self._spa_identifier is None", False) in tf
             ctx.ob("R2", f"{fi.qual}::{nm}-append::filtered", ok,
                    f"{fi.qual}: a reply whose (decoded) identifier differs from the requested one can still reach the {nm} append", loc(fi, N.ast))
         # R3 found flag
